@@ -215,15 +215,20 @@ def decide_and_report(pid, tier, seed, cfg, report, scratch):
     # to the proofs: it cross-checks the executable mirror of the specification against the code the proofs are about)
     if tier == 'thorough' and exit_code == 0 and cfg.get('standin_ops'):
         grid_known = []
+        grids_ran = True
         try:
             w, cases = witness_mod.standin(pid, cfg['standin_ops'], REPO, scratch, known=known, known_hits=grid_known)
+            if cases == 0:
+                raise RuntimeError('the replay grids reported no cases at all')
         except Exception as e:
             w, cases = None, 0
-            lines.append(f'  (replay grids could not run: {e!r})')
+            grids_ran = False
+            lines.append(f'UNDECIDED property={pid} the replay grids of the thorough tier could not run: {str(e)[:1500]}')
+            exit_code = 2
         for kw in grid_known:
             lines.append(f'KNOWN-FINDING: property={pid} grid {kw["op"]} {kw["known"].get("witness", "")} observed={kw.get("observed")} -- {kw["known"].get("what", "")}')
         report['grid_known'] = [dict(op=kw['op'], input_digest=witness_mod.input_digest(kw['op'], kw['input']), observed=kw.get('observed'), witness=kw['known'].get('witness', '')) for kw in grid_known]
-        report['bounded'].append(dict(id=f'grids[{pid}]', bound=f'replay grids of {len(cfg["standin_ops"])} operations, {cases} cases', status='failed' if w else ('agree apart from recorded open findings' if grid_known else 'agree'),
+        report['bounded'].append(dict(id=f'grids[{pid}]', bound=f'replay grids of {len(cfg["standin_ops"])} operations, {cases} cases', status='failed' if w else ('could not run' if not grids_ran else ('agree apart from recorded open findings' if grid_known else 'agree')),
                                       kind='bounded', fn='replay grids (thorough tier)'))
         if w:
             rp = os.path.join(OUT, 'replays', f'{pid}-grid.json')
@@ -233,7 +238,7 @@ def decide_and_report(pid, tier, seed, cfg, report, scratch):
             lines.append(f'  replay grid (bounded): op {w["op"]} witness={_short(json.dumps(w.get("input")))} observed={w.get("observed")} expected={w.get("expected")}')
             standin_v.append(dict(id=f'grid[{pid}]:{w["op"]}', status='failed'))
             exit_code = 1
-        else:
+        elif grids_ran:
             lines.append(f'  replay grids (bounded, thorough tier): {cases} cases of {len(cfg["standin_ops"])} operations agree with the specification' + (f' apart from {len(grid_known)} recorded open finding(s)' if grid_known else ''))
     if tier != 'thorough':
         # open findings of the bounded grids are only re-run by the thorough tier; the quick tier still lists them
